@@ -13,16 +13,20 @@ use crate::run::Trace;
 pub const LAST: u32 = 1000;
 
 fn len_idx(r: &mut Rng) -> u32 {
-    // 84% dense lane 0..=8, 14% sparse lane below 64, 2% large
-    let x = r.below(100);
-    if x < 84 {
+    // 84% dense lane 0..=8, 14% sparse lane below 64, 1.6% large (64..=1024), 0.4% very large (above 1024:
+    // a run that holds such an array costs about as much as a hundred ordinary runs)
+    let x = r.below(1000);
+    if x < 840 {
         r.below(N_DENSE as u32)
-    } else if x < 98 {
+    } else if x < 980 {
         let small: Vec<u32> = (N_DENSE as u32..LENS.len() as u32).filter(|&i| LENS[i as usize] < 64).collect();
         r.pick(&small)
-    } else {
-        let big: Vec<u32> = (N_DENSE as u32..LENS.len() as u32).filter(|&i| LENS[i as usize] >= 64).collect();
+    } else if x < 996 {
+        let big: Vec<u32> = (N_DENSE as u32..LENS.len() as u32).filter(|&i| LENS[i as usize] >= 64 && LENS[i as usize] <= 1024).collect();
         r.pick(&big)
+    } else {
+        let huge: Vec<u32> = (N_DENSE as u32..LENS.len() as u32).filter(|&i| LENS[i as usize] > 1024).collect();
+        r.pick(&huge)
     }
 }
 
@@ -70,8 +74,8 @@ pub fn gen_op(r: &mut Rng, kind: OpKind) -> Op {
         }
         ItNext | ItNextBack | ItLast => vec![slot(r), r.below(2)],
         // the executor reduces the skip count modulo len+3 (arguments >= 100_000 mean "top of usize")
-        ItNth | ItNthBack => vec![slot(r), match r.below(25) { 0 => 100_000 + r.below(4), 1..=8 => r.below(1100), _ => r.below(12) }, r.below(2)],
-        ItWrite => vec![slot(r), if r.chance(1, 3) { r.below(1100) } else { r.below(9) }],
+        ItNth | ItNthBack => vec![slot(r), match r.below(25) { 0 => 100_000 + r.below(4), 1..=8 => r.below(4200), _ => r.below(12) }, r.below(2)],
+        ItWrite => vec![slot(r), if r.chance(1, 3) { r.below(4200) } else { r.below(9) }],
         ItFold | ItRfold => vec![slot(r), r.below(3)],
         ItCollect => vec![slot(r), r.below(4), len_idx(r)],
         ItCloneFrom | CloneFromArr => vec![slot(r), r.below(3)],
@@ -83,7 +87,7 @@ pub fn gen_op(r: &mut Rng, kind: OpKind) -> Op {
         Pop => vec![slot(r), r.below(2), r.below(2)],
         Split => vec![slot(r), r.below(9)],
         Concat => vec![slot(r), r.below(3)],
-        Remove => vec![slot(r), if r.chance(1, 3) { r.below(1100) } else { r.below(9) }, r.below(2), r.below(2)],
+        Remove => vec![slot(r), if r.chance(1, 3) { r.below(4200) } else { r.below(9) }, r.below(2), r.below(2)],
         Unflatten => vec![slot(r), r.below(4)],
         NestGen => vec![r.below(NESTS.len() as u32)],
         NestClone => vec![slot(r)],
@@ -504,9 +508,25 @@ pub fn gen_trace(prop: Prop, seed: u64) -> Trace {
             let mut ops = Vec::new();
             let n = r.range(3, 24);
             let mut abs = Abs::default();
+            // "an intermediate value of any operation": the deserialisation error paths tear down a
+            // partially filled array too (short input, element error at k, surplus)
+            let mut table = MOVES.to_vec();
+            table.extend_from_slice(&[(DeScripted, 6), (DeReal, 3)]);
             for _ in 0..n {
-                let mut op = next_op(r, &mut abs, MOVES);
+                let mut op = next_op(r, &mut abs, &table);
                 let kind = op.kind;
+                if kind == DeScripted && r.chance(3, 4) {
+                    let nn = LENS[op.args[0] as usize] as u32;
+                    op.args[1] = match r.below(6) { 0 => nn, 1 => nn + 1, 2 | 3 => nn.saturating_sub(1 + r.below(2)), _ => r.below(nn + 3) };
+                    op.args[2] = r.below(5) + 5 * (r.chance(1, 4) as u32);
+                    op.args[3] = r.below(4) + 4 * (r.chance(1, 3) as u32);
+                    op.args[4] = if r.chance(1, 3) { 1 + r.below(op.args[1] + 1) } else { 0 };
+                }
+                if kind == DeReal {
+                    op.args[1] = r.below(3);
+                    op.args[3] = if r.chance(1, 2) { 1 + r.below(200) } else { 0 };
+                    op.args[4] = if r.chance(1, 4) { 1 + r.below(40) } else { 0 };
+                }
                 // error paths that tear down partially built values
                 if kind == Collect && r.chance(1, 2) {
                     let nn = LENS[op.args[0] as usize] as u32;
